@@ -650,6 +650,10 @@ def run(ctx):
     # reply's own id and fields (C09.same / C09.kept), adopted
     from .c18 import rule_composition
     ctx.guarded("C08.stack", rule_composition, ctx, "C08.stack")
+    # "whatever layer of the stack transports them": an error reply to every request kind the group forwards reaches the top
+    from . import c08_transit
+    ctx.rule("C08.transit", "an error reply to every request kind the protocol group forwards reaches the interface layer once", floor=20)
+    ctx.guarded("C08.transit", c08_transit.rule_transit, ctx)
     from . import c09
     iq_base = ctx.repo.cls("yowsup/layers/protocol_iq/protocolentities/iq.py", "IqProtocolEntity")
     ctx.adopt_from("C09", [(c09.rule_classes, (lambda c: iq_base in ctx.repo.mro(c),))], {"C09.same": "C08.entity", "C09.kept": "C08.entity", "C09.ret": "C08.entity"})
